@@ -1,6 +1,9 @@
 package smtp
 
-import "io"
+import (
+	"io"
+	"time"
+)
 
 // verifValidScalar: r is a Unicode scalar value.
 func verifValidScalar(r rune) bool {
@@ -82,13 +85,13 @@ func verif_C14_trip() {
 	assume(verifValidScalar(r) && r >= 0x20 && r != 0x7f)
 	utf8srv := nondetBool()
 	isMail := nondetBool()
-	ext := map[string]string{"8BITMIME": "", "SIZE": "", "DSN": "", "AUTH": "", "REQUIRETLS": ""}
+	ext := map[string]string{"8BITMIME": "", "SIZE": "", "DSN": "", "AUTH": "", "REQUIRETLS": "", "RRVS": ""}
 	if utf8srv {
 		ext["SMTPUTF8"] = ""
 	}
 	be := &vbackend{}
 	srv, _ := verifServer(be)
-	srv.EnableDSN, srv.EnableREQUIRETLS, srv.EnableSMTPUTF8 = true, true, utf8srv
+	srv.EnableDSN, srv.EnableREQUIRETLS, srv.EnableSMTPUTF8, srv.EnableRRVS = true, true, utf8srv, true
 	var line []byte
 	var cerr error
 	var mo MailOptions
@@ -141,6 +144,13 @@ func verif_C14_trip() {
 			ro.OriginalRecipientType = DSNAddressTypeUTF8
 			ro.OriginalRecipient = "o" + string(r) + "\\@h"
 		}
+		// RRVS: a concrete corpus of timestamps (to the second)
+		switch verifChoice(verifBound(2, 3)) {
+		case 1:
+			ro.RequireRecipientValidSince = time.Date(2014, 4, 3, 23, 1, 0, 0, time.UTC)
+		case 2:
+			ro.RequireRecipientValidSince = time.Date(1970, 1, 1, 0, 0, 1, 0, time.UTC)
+		}
 		c, vc := verifClient("250 2.0.0 ok\r\n", ext)
 		cerr = c.Rcpt("r@v", &ro)
 		line = vc.out
@@ -185,6 +195,7 @@ func verif_C14_trip() {
 			return
 		}
 		verifAssert(got.OriginalRecipientType == ro.OriginalRecipientType && got.OriginalRecipient == ro.OriginalRecipient, "C14.orcpt-survives")
+		verifAssert(got.RequireRecipientValidSince.Equal(ro.RequireRecipientValidSince), "C14.rrvs-survives")
 		verifAssert(len(got.Notify) == len(ro.Notify), "C14.notify-length-survives")
 		if len(got.Notify) == len(ro.Notify) {
 			for i := range ro.Notify {
